@@ -10,6 +10,7 @@ From Coq Require Import List Arith ZArith Lia Bool.
 Import ListNotations.
 From MS Require Import Base.Str Vm.Model Lang.Syntax Lang.Eval Compile.Compile Compile.ExprBase.
 From MS Require Import Compile.StmtMach Compile.StmtRel Compile.StmtFrag Compile.StmtSim Compile.StmtFun Compile.StmtMod.
+From MS Require Import Compile.ClosFrag Compile.ClosTop.
 
 Fixpoint nodupb (l : list str) : bool :=
   match l with [] => true | x :: t => negb (mem_str x t) && nodupb t end.
@@ -78,14 +79,18 @@ Proof.
   - apply andb_true_iff in H as [H1 H2]. split; [exact H1|now apply IH].
 Qed.
 
-Definition in_fragment (path : str) (p : source) : bool :=
+(* two proved fragments: (1) statements of every kind, functions defined at the top level that capture functions and read
+   data variables (Compile/StmtMod.v); (2) first-class function values: literals anywhere, closures by reference with
+   `modify`, functions returned / stored / passed and called through variables (Compile/ClosTop.v) *)
+Definition in_fragment1 (path : str) (p : source) : bool :=
   let its := classify p in
   mod_okb [] [] its && smallb (2 * length (tmodule_code path its) + 8).
+Definition in_fragment (path : str) (p : source) : bool := in_fragment1 path p || in_fragment2 path p.
 
-Theorem in_fragment_sound : forall path p, in_fragment path p = true ->
+Theorem in_fragment_sound : forall path p, in_fragment1 path p = true ->
   mod_ok [] [] (classify p) /\ small (2 * length (tmodule_code path (classify p)) + 8).
 Proof.
-  intros path p H. unfold in_fragment in H. apply andb_true_iff in H as [H1 H2].
+  intros path p H. unfold in_fragment1 in H. apply andb_true_iff in H as [H1 H2].
   split; [now apply mod_okb_sound|now apply smallb_sound].
 Qed.
 
@@ -96,6 +101,7 @@ Theorem fragment_correct : forall path p, in_fragment path p = true ->
   exists fuel', fst (fst (execute fuel' (cprogram path p) (s_module_fn path))) = fst (run fuel p) /\
                 vm_outcome_ok (snd (run fuel p)) (snd (fst (execute fuel' (cprogram path p) (s_module_fn path)))).
 Proof.
-  intros path p H fuel Hf. destruct (in_fragment_sound path p H) as (Hok & Hsm).
-  exact (module_top_correct path p Hok Hsm fuel Hf).
+  intros path p H fuel Hf. unfold in_fragment in H. apply orb_true_iff in H as [H|H].
+  - destruct (in_fragment_sound path p H) as (Hok & Hsm). exact (module_top_correct path p Hok Hsm fuel Hf).
+  - exact (closure_module_correct path p H fuel Hf).
 Qed.
